@@ -7,6 +7,7 @@ import (
 	"os"
 	"time"
 
+	"verif/harness/clienth"
 	"verif/harness/conc"
 	"verif/harness/flushenum"
 	"verif/harness/getenum"
@@ -37,6 +38,8 @@ var runners = map[string]runner{
 	}},
 	"C11": {"model_checking", conc.RunC11},
 	"C09": {"model_checking", streams.RunC09},
+	"C13": {"model_checking", clienth.RunC13},
+	"C14": {"fault_enumeration", clienth.RunC14},
 	"C10": {"fault_enumeration", streams.RunC10},
 	"C06": {"model_checking", func(rep *report.Report, tier string) {
 		sesshist.RunC06(rep, tier)
@@ -47,6 +50,8 @@ var runners = map[string]runner{
 // children are the shard entry points: vworker -child <property> <tier> <part> <dumpfile>
 var children = map[string]func(rep *report.Report, tier, part string){
 	"C11": conc.ChildC11,
+	"C13": clienth.ChildC13,
+	"C14": clienth.ChildC14,
 	"C06": streams.Child("C06"),
 	"C09": streams.Child("C09"),
 	"C10": streams.Child("C10"),
